@@ -284,6 +284,16 @@ QPACK_BAD = [
     block([idx(17), idx(23), idx(1), lit_ref_h(0, b'www.example.com')]), block([idx(25), lit_h(b'a', b'0' * 8)]), block([idx(25), lit_h(b'abcdefgh', b'12345678' * 8)]),
     block([idx(17), idx(23), idx(1), lit_ref_h(0, b'www.example.com', extra_pad_bytes=1)]), block([idx(25), lit_h(b'a', b'xyz', pad_ones=False)]),
     block([idx(25), lit_h(b'a', b'\x00\x01\x02\xff')]), block([idx(25), lit_h(b'a', b'')]),
+] + [
+    # Huffman literals that contain the 30-bit EOS code followed by 2..66 further bits (runs of 0xff of 4..12 octets, alone
+    # and after a complete symbol), as a value and as a name: the walk of the decoding tables goes past the EOS leaf
+    # (seeded C06-rt3b: an unchecked index into the empty table behind EOS panicked)
+    b'\x00\x00\x51' + bytes([0x80 | (len(pre) + n)]) + pre + b'\xff' * n
+    for n in range(4, 13) for pre in (b'', b'\x00', b'\x7f')
+] + [
+    b'\x00\x00' + bytes([0x28 | n]) + b'\xff' * n + b'\x01a' for n in (4, 5, 6)
+] + [
+    b'\x00\x00\x2f' + bytes([n - 7]) + b'\xff' * n + b'\x01a' for n in (7, 8, 12)
 ]
 
 
